@@ -505,7 +505,23 @@ impl World {
                 }
                 None => false,
             };
-            let sig = if outrun {
+            // liveness face of the stale-configuration election: a leader elected with a configuration two or
+            // more changes behind its own log committed membership entries with a quorum that does not
+            // intersect the newest configuration; its voters lack committed entries and nobody who has them may lead
+            let max_commit = self.nodes.values().filter(|x| x.running()).map(|x| x.obs.commit).max().unwrap_or(0);
+            let stranded = !self.ghost.stale_conf_elections.is_empty()
+                && match &best {
+                    Some((bc, _)) => {
+                        let voters: Vec<&crate::world::Node> = self.nodes.values().filter(|x| x.running() && bc.is_voter(x.id)).collect();
+                        !voters.is_empty()
+                            && voters.iter().all(|x| x.obs.last_index < max_commit)
+                            && self.nodes.values().filter(|x| x.running() && x.obs.last_index >= max_commit).all(|x| !x.obs.promotable)
+                    }
+                    None => false,
+                };
+            let sig = if stranded {
+                "stall:stale_config_leader_stranded_new_voters"
+            } else if outrun {
                 "stall:stale_config_voter_outruns_terms"
             } else if deaf_nonvoter {
                 "stall:higher_term_nonvoter_ignores_leader"
